@@ -5,7 +5,7 @@ COMMON_ASSUME = [
 ]
 PROPS = {
     "C03": {
-        "suites": ["c03", "scope-c04", "c20cache", "allocfault"],
+        "suites": ["c03", "scope-c04", "c20cache", "histpass", "histlock", "allocfault"],
         "assumptions": COMMON_ASSUME + [
             "sort.Sort returns a permutation sorted by Less (modelled by merge sort; theorems hold for the sorted permutation)",
             "float64 comparison is IEEE-754 (modelled on bit patterns through a sign-magnitude key)",
@@ -21,7 +21,7 @@ PROPS = {
         "trusted_base": ["sync.Pool buffer recycling is not modelled; its independence is exercised by 16 concurrent goroutines per 40th case"],
     },
     "C01": {
-        "suites": ["c01", "c01race", "scope-c07seq", "scopeseq", "c08sched", "allocfault", "c09sub"],
+        "suites": ["c01", "c01race", "scope-c07seq", "scopeseq", "histpass", "histlock", "c08sched", "allocfault", "c09sub"],
         "assumptions": COMMON_ASSUME + [
             "a report pass reaches a counter only through counter.report / cachedReport / histogram.report (tie facts), so 'visit' = swap then optional reporter call",
             "lifting from one cell to 'per name and tags': a pass visits each registered counter once (C04/C07 cover registration and naming)",
@@ -116,7 +116,7 @@ PROPS = {
         "timeout": {"quick": 400, "thorough": 3600},
     },
     "C09": {
-        "suites": ["c09", "c09sub", "c20cache", "scope-c07seq", "allocfault", "allocpanic", "c09rw", "racescope"],
+        "suites": ["c09", "c09sub", "c20cache", "scope-c07seq", "allocfault", "allocpanic", "histpass", "histlock", "c09rw", "racescope"],
         "assumptions": COMMON_ASSUME + [
             "data-race freedom in the sense of the Go memory model is not expressible in the interleaving model; it is supported by -race runs only",
             "a parked thread holds no lock between the read-locked probe and the write lock (tie facts)",
@@ -210,7 +210,7 @@ PROPS = {
         "timeout": {"quick": 300, "thorough": 3000},
     },
     "C13": {
-        "suites": ["c13", "c12", "c13fault", "c12conc"],
+        "suites": ["c13", "c12", "c13fault", "c12conc", "c13big"],
         "assumptions": COMMON_ASSUME + [
             "a concurrent history is represented by the order in which its sends on metCh, its tag-cache accesses and its clock stores took effect (the queue totally orders the sends; cache and interner are lock protected and monotone); the bounded queue only delays senders",
             "the harness logs reports per producer goroutine; emitted metrics are matched to log entries by name and kind in per-producer order (names are distinct per producer), values / tags / timestamps of the matched pairs are then judged clause by clause; tally.internal.* telemetry sent by Flush is excluded from the matching",
